@@ -4,7 +4,7 @@ import json
 from fractions import Fraction
 import numpy as np
 from harness import votelib as V
-from harness.common import pmap, lean_query, guard, fr
+from harness.common import pmap, lean_query, guard, fr, safe_judge
 from harness.c01 import chunks
 
 LEVEL = "proof"
@@ -77,6 +77,7 @@ def balanced_sum(X):
     return rs, cs
 
 
+@safe_judge
 def judge(R, it, res, ans):
     X = [[Fraction(x) for x in row] for row in it["X"]]
     n = len(X)
